@@ -21,6 +21,10 @@ def layout_chunked(rng, body):
 def gen_body(rng, big=False):
     k = rng.random()
     if big or k > 0.985:
+        if rng.random() < 0.5:
+            # lines longer than every block size of the code (8192 in the iteration step, 1024 in readline's refills)
+            parts = [b"x" * rng.choice([1, 100, 1023, 8191, 8192, 8193, 12000, 20414]) for _ in range(rng.randint(1, 3))]
+            return b"\n".join(parts) + (b"\n" if rng.random() < 0.5 else b"")
         n = rng.choice([8191, 8192, 8193, 9300, 16385, 20000, 40000])
         return bytes(rng.choice(b"ab\n") for _ in range(n))
     if k < 0.1:
@@ -322,6 +326,23 @@ def run(ctx):
         if i < 4:
             ctx.sample({"body_len": len(case["body"]), "chunked": case["chunked"], "chunks": [len(c) for c in case["chunks"]][:12],
                         "prog": repr(case["prog"]), "limits": case.get("limits")})
+    # lines longer than every block size, consumed the way a `for` loop / next() / readline() consumes them
+    for lens in ((20414,), (5, 8193, 7), (8192, 8192), (30000, 1)):
+        body = b"\n".join(b"y" * k for k in lens) + b"\n"
+        for chunked in (False, True):
+            for prog in ([("next", None)] * 3, [("iternext", None)] * 4, [("read", 5), ("iternext", None), ("readline", None), ("next", None)],
+                         [("readline", None), ("readline", 9000), ("next", None)]):
+                hdr, enc = (layout_chunked if chunked else layout_cl)(ctx.rng, body)
+                stream = b"POST /upload HTTP/1.1\r\nHost: x\r\n" + hdr + b"\r\n" + enc + NEXT_REQ
+                seg = ctx.rng.choice(["whole", "random", "small"])
+                case = {"body": body, "chunked": chunked, "stream": stream, "chunks": next(iter(lp.segmentations(ctx.rng, stream, [seg])))[1],
+                        "prog": list(prog), "seg": seg, "limits": None}
+                f = check_case(case)
+                ctx.count_case(("long-line", lens, chunked, repr(prog), seg), True)
+                ctx.hist("body_size", ">2048")
+                ctx.hist("long_lines", "lines of %r bytes" % (lens,))
+                if f:
+                    fails.append((case, f))
     # huge bodies, mostly left unread: the drain of Parser.__next__ must still end exactly behind the body
     nh = 0
     for n_body in (HUGE_SIZES if not quick else ctx.rng.sample(HUGE_SIZES[:3], 1) + HUGE_SIZES[3:7]):
